@@ -838,9 +838,12 @@ fn run_history(work: &str, hist: usize, seed: u64, rounds: usize) -> (String, BT
 struct MonAdapter {
 	inner: Arc<PoolToNetAdapter>,
 	force_expired: AtomicBool,
+	/// passes of the monitor loop started (it asks `is_stem` first)
+	passes: std::sync::atomic::AtomicUsize,
 }
 impl DandelionAdapter for MonAdapter {
 	fn is_stem(&self) -> bool {
+		self.passes.fetch_add(1, Ordering::SeqCst);
 		self.inner.is_stem()
 	}
 	fn is_expired(&self) -> bool {
@@ -1078,7 +1081,7 @@ impl Mon {
 		sync.update(SyncStatus::NoSync);
 		let recv = NetToChainAdapter::new(sync.clone(), n.node.clone(), n.pool.clone(), grin_servers::ServerConfig::default(), vec![]);
 		recv.init(n.peers.clone());
-		let mon = Arc::new(MonAdapter { inner: net.clone(), force_expired: AtomicBool::new(false) });
+		let mon = Arc::new(MonAdapter { inner: net.clone(), force_expired: AtomicBool::new(false), passes: std::sync::atomic::AtomicUsize::new(0) });
 		Mon { n, net, mon, recv, sync, dcfg }
 	}
 
@@ -1263,9 +1266,18 @@ impl Mon {
 		let old_emb = self.older_than(EMBARGO_SECS as i64 + 31);
 		let adapter: Arc<dyn DandelionAdapter> = self.mon.clone();
 		let stop = Arc::new(grin_util::StopState::new());
+		let before = self.mon.passes.load(Ordering::SeqCst);
 		match monitor_transactions(self.dcfg.clone(), self.n.pool.clone(), adapter, stop.clone()) {
 			Ok(h) => {
-				std::thread::sleep(std::time::Duration::from_millis(300));
+				// the loop runs its first pass at once; once it has started (it asks `is_stem` first)
+				// the stop flag is set: the thread finishes the pass, sleeps a second, sees the flag
+				let t0 = std::time::Instant::now();
+				while self.mon.passes.load(Ordering::SeqCst) == before && t0.elapsed().as_secs() < 60 {
+					std::thread::sleep(std::time::Duration::from_millis(20));
+				}
+				if self.mon.passes.load(Ordering::SeqCst) == before {
+					self.n.raw("#ORACLE-FAIL C14 node-dandelion-monitor-thread-never-ran: monitor_transactions did not start a pass within 60 s");
+				}
 				stop.stop();
 				let _ = h.join();
 			}
